@@ -3,6 +3,9 @@
 S = "internal/server"
 
 CHECKS = {
+    "C04": {"level": "fault_enumeration",
+            "parts": [{"pkg": S, "check": "c04", "shards": 16, "gomaxprocs": 2}],
+            "quick": {"budget_s": 100}, "thorough": {"budget_s": 1200}},
     "C03": {"level": "model_checking",
             "parts": [{"pkg": S, "check": "c03", "shards": 16, "gomaxprocs": 2}],
             "quick": {"budget_s": 100, "params": {"depth": 3}},
